@@ -6,11 +6,11 @@ Q(n, d) == Norm(n, d)
 B(lb, ub) == Lit("bounds", <<lb, ub>>, <<2>>)
 MC_Code == [b |-> <<98>>, u |-> <<117>>, w |-> <<119>>, K |-> <<75>>, S |-> <<83>>, c |-> <<99>>]
 MC_BaseCalls == <<
-    Call("MkVar", 0, 0, "binary", B(NoneQ, NoneQ), 0, 0, 0, "b"),
-    Call("MkVec", 0, 0, "binary", B(Q(-5,1), Q(7,1)), 3, 0, 0, "u"),
+    Call("MkVar", 0, 0, "binary", B(Q(0,1), Q(1,2)), 0, 0, 0, "b"),          \* declared with a bound inside [0, 1]: still carries [0, 1]
+    Call("MkVec", 0, 0, "binary", B(Q(1,4), Q(7,1)), 3, 0, 0, "u"),
     Call("MkVec", 0, 0, "integer", B(Q(0,1), Q(9,1)), 3, 0, 0, "w"),
     Call("MkMat", 0, 0, "binary", B(NoneQ, Q(4,1)), 2, 3, 0, "K"),
-    Call("MkMat", 0, 0, "binary", B(NoneQ, NoneQ), 2, 2, 1, "S"),
+    Call("MkMat", 0, 0, "binary", B(Q(1,1), Q(1,1)), 2, 2, 1, "S"),
     Call("MkVar", 0, 0, "continuous", B(Q(1,1), NoneQ), 0, 0, 0, "c")
   >>
 MC_AllNames == {<<"b">>, <<"c">>} \cup {<<"u", i>> : i \in 0..2} \cup {<<"w", i>> : i \in 0..2}
